@@ -70,6 +70,8 @@ FRAME_ATTRS = [('fk5', 'equinox', 'J1975'), ('fk5', 'equinox', 'J2015.5'), ('fk4
                ('fk4', 'obstime', 'B1960'), ('geocentrictrueecliptic', 'equinox', 'J2010'),
                ('geocentrictrueecliptic', 'obstime', 'J2010'), ('barycentricmeanecliptic', 'equinox', 'J1990'),
                ('heliocentrictrueecliptic', 'obstime', 'J1995')]
+EXTRA_ATTRS = [('icrs', 'obstime', 'J2010'), ('galactic', 'obstime', 'J2010'), ('icrs', 'equinox', 'J1975'),
+               ('fk5', 'obstime', 'J2010'), ('galactic', 'equinox', 'B1950'), ('icrs', 'obstime', 'B1960')]
 DS9_SYMBOLS = ['circle', 'box', 'diamond', 'x', 'cross', 'arrow', 'boxcircle']
 WORDS = ['a', 'bb', 'Crab', 'src 1', 'x_y', 'green', 'red', '', 'Zeta', 'tick']
 
@@ -135,6 +137,7 @@ def build(spec, world=None):
         return unfl(spec['v']) * u.Unit(spec['unit'])
     if t == 'sky':
         fattrs = dict(spec.get('fattrs') or {})
+        fattrs.update(spec.get('xattrs') or {})       # attributes the frame does not have: kept by the SkyCoord
         frame = spec['frame']
         style = spec.get('fstyle')
         if style in ('cls', 'explicit', 'time'):
@@ -277,7 +280,8 @@ class Walker:
                 ['frame', {'s': frame_str(o)}],
                 ['lon', self.node(lon, 'array', [['', numj(v)] for v in lo])],
                 ['lat', self.node(lat, 'array', [['', numj(v)] for v in la])],
-                ['scalar', {'b': bool(o.isscalar)}]])
+                ['scalar', {'b': bool(o.isscalar)}],
+                ['extra', {'s': ','.join(f'{k}={getattr(o, k)}' for k in sorted(o._extra_frameattr_names))}]])
         if isinstance(o, dict):
             kind = 'rmeta' if isinstance(o, RegionMeta) else 'rvisual' if isinstance(o, RegionVisual) else 'dict'
             return self.node(o, kind, [[str(k), self.walk(v)] for k, v in o.items()])
@@ -954,7 +958,15 @@ class Check(PropertyCheck):
                         for st_ in ('cls', 'explicit', 'time'):
                             cases.append(self.gen_eq(g, cls, 'frameattr', nm_,
                                                      ('equiv', rng.choice(FRAME_ATTRS), st_), descend=False))
+                for nm_, k_ in ALL[cls]:
+                    if k_ in ('sky', 'skyarr'):
+                        for xa_ in EXTRA_ATTRS:
+                            cases.append(self.gen_eq(g, cls, 'xattr', nm_, ('differ', xa_), descend=False))
+                        cases.append(self.gen_eq(g, cls, 'xattr', nm_, ('equiv', rng.choice(EXTRA_ATTRS)), descend=False))
                 if cls == 'CompoundSkyRegion':
+                    for xa_ in EXTRA_ATTRS:
+                        cases.append(self.gen_eq(g, cls, 'xattr', None, ('differ', xa_)))
+                    cases.append(self.gen_eq(g, cls, 'xattr', None, ('equiv', rng.choice(EXTRA_ATTRS))))
                     for fa_ in FRAME_ATTRS:            # inside an operand, at any depth
                         cases.append(self.gen_eq(g, cls, 'frameattr', None, ('differ', fa_, None)))
                         cases.append(self.gen_eq(g, cls, 'frameattr', None, ('equiv', fa_, rng.choice(['cls', 'explicit', 'time']))))
@@ -1002,9 +1014,12 @@ class Check(PropertyCheck):
         return cases
 
     # -- copy + mutation programs
-    def gen_mut(self, g, root, spec, changed=()):
+    def gen_mut(self, g, root, spec, changed=(), dead=()):
         r = g.rng
-        tl = [t for t in targets(spec) if not (t[0] and t[0][0] in changed)]
+        # `dead`: operand attributes that an earlier step replaced by another region (whose shape the
+        # spec no longer describes): nothing below them is targeted any more
+        tl = [t for t in targets(spec) if not (t[0] and t[0][0] in changed)
+              and not any(t[0][:len(d)] == d and len(t[0]) > len(d) for d in dead)]
         path, kind, info = r.choice(tl)
         at = {'root': root, 'path': path}
         if kind == 'region':
@@ -1133,8 +1148,12 @@ class Check(PropertyCheck):
                 if 'visual' not in changed:
                     prog.append({'do': 'mut', 'at': {'root': side, 'path': ['visual', 'dashlist']}, 'op': r.choice(['append', 'setidx']),
                                  'idx': 1, 'val': {'t': 'int', 'v': 77}})
+            dead = []
             for _ in range(r.randint(1, 8)):
-                prog.append(self.gen_mut(g, side, sb, changed=changed if side == 'b' else ()))
+                m = self.gen_mut(g, side, sb, changed=changed if side == 'b' else (), dead=dead)
+                if m.get('op') == 'set' and isinstance(m.get('val'), dict) and m['val'].get('t') == 'region':
+                    dead.append(m['at']['path'] + [m['key']])
+                prog.append(m)
             prog.append({'do': 'snap', 'tag': 'after_mut'})
             prog.append({'do': 'eq', 'a': {'root': 'a', 'path': []}, 'b': {'root': 'b', 'path': []}})
         return {'kind': 'copy', 'how': how, 'cls': cls, 'side': None if bogus else side, 'prog': prog,
@@ -1334,6 +1353,37 @@ class Check(PropertyCheck):
             set_param(ta, nm, va)
             set_param(tgt, nm, vb)
             info.update(mode=mode, field=nm, frame=fname, attr=attr, style=style)
+        if what == 'xattr':
+            # an EXTRA frame attribute (one the frame class does not have) on one side only, on both
+            # sides with different values ('differ'), or the same on both sides ('equiv')
+            mode, (fname, attr, val) = fmode
+            while tgt['cls'].startswith('Compound'):
+                which = r.choice(['region1', 'region2'])
+                path.append(which)
+                tgt = get_param(tgt, which)
+            tcls = info['tcls'] = tgt['cls']
+            sks = [nm for nm, k in ALL[tcls] if k in ('sky', 'skyarr')]
+            nm = field if field in sks else r.choice(sks)
+            ta = a
+            for pth in path:
+                ta = get_param(ta, pth)
+            va = dict(get_param(ta, nm), frame=fname)
+            for k_ in ('fattrs', 'fstyle', 'xattrs'):
+                va.pop(k_, None)
+            vb = json.loads(json.dumps(va))
+            if mode == 'equiv':
+                va['xattrs'] = {attr: val}
+                vb['xattrs'] = {attr: val}
+            else:
+                vb['xattrs'] = {attr: val}
+                c_ = r.random()
+                if c_ < 0.3:
+                    va['xattrs'] = {attr: 'J2000.5'}
+                if c_ > 0.7:
+                    va, vb = vb, va
+            set_param(ta, nm, va)
+            set_param(tgt, nm, vb)
+            info.update(mode=mode, field=nm, frame=fname, attr=attr)
         if what == 'marker':
             sa, sb = fmode
             info.update(mode='same' if sb is None else 'value', key='marker', syms=[sa, sb])
@@ -1893,9 +1943,9 @@ class Check(PropertyCheck):
                 return V
             expect = None
             if what in ('same', 'unit', 'refl') or (what == 'marker' and info['mode'] == 'same') \
-                    or (what == 'frameattr' and info['mode'] == 'equiv'):
+                    or (what in ('frameattr', 'xattr') and info['mode'] == 'equiv'):
                 expect = True
-            elif what == 'frameattr':
+            elif what in ('frameattr', 'xattr'):
                 expect = False
             elif what == 'marker':
                 expect = False
